@@ -93,7 +93,7 @@ Theorem mp_true_derivative d m var var' i t : (1 <= d)%nat -> (1 <= m)%nat ->
       -f (if Nat.ltb i ((m - 1) * (d * d * (d * d))) && Nat.ltb (i mod (d * d * (d * d))) (d * d)
              && Nat.eqb pos ((m - 1) * (d * d * (d * d)) + i mod (d * d * (d * d))) then t else 0).
 Proof. intros Hd Hm H Hi [L' B] pos Hpos. pose proof (sq_pos d Hd) as Hn. unfold mp_var_to_stacked. cbv zeta.
-  set (n := (d * d)%nat) in *. set (h := (n * n)%nat) in *. assert (Hh : (n <= h)%nat) by (unfold h; nia).
+  set (n := (d * d)%nat) in *. set (h := (n * n)%nat) in *. assert (Hh : (n <= h)%nat) by (unfold h; clear; induction n as [|k IHk]; [lia|rewrite Nat.mul_succ_l; lia]).
   pose proof (arith_small n Hn) as Hs. fold h in Hs.
   assert (Q : (length var / h = m - 1)%nat) by (rewrite H; apply div_add_small; exact Hs).
   rewrite L', Q. set (L := (h * (m - 1))%nat). replace ((m - 1) * h)%nat with L in * by (unfold L; lia).
@@ -120,7 +120,7 @@ Proof. intros Hd Hm H Hi [L' B] pos Hpos. pose proof (sq_pos d Hd) as Hn. unfold
       destruct (Nat.ltb_spec (i mod h) n) as [M|M]; cbn [andb];
       destruct (Nat.eqb_spec c (i mod h)) as [E1|E1], (Nat.eqb_spec pos (L + i mod h)) as [E2|E2]; try (unfold c in *; lia); ring.
     + rewrite (sumn_zero' (m - 1) (fun x => if Nat.eqb (x * h + c) i then t else 0)).
-      2:{ intros x Hx. destruct (Nat.eqb_spec (x * h + c) i) as [E|_]; [|reflexivity]. exfalso. unfold L in *. nia. }
+      2:{ intros x Hx. destruct (Nat.eqb_spec (x * h + c) i) as [E|_]; [|reflexivity]. exfalso. assert (K : ((x + 1) * h <= (m - 1) * h)%nat) by (apply Nat.mul_le_mono_r; lia). unfold L in *. lia. }
       destruct (Nat.eqb_spec pos (i + n)) as [E|_]; [lia|]. ring.
   - (* a later row of the last HS matrix *)
     rewrite !nth_skipn_add, B.
